@@ -191,15 +191,15 @@ DRIVERS = {
 PARSE_ALL = ["PARSE-SEP", "PARSE-PATH", "PARSE-QUAL", "PARSE-TYPED", "PARSE-NS", "PARSE-SUB", "PARSE-QUALS2", "PARSE-UPKEYS", "PARSE-UPTYPE", "SPELL", "FAULT"]
 BUILD_ALL = ["BUILDER-G", "BUILDER-T", "BUILDER-SIM-G", "BUILDER-SIM-T", "BUILDER-SEQ"]
 PROPS = {
-    "C01": dict(suites=PARSE_ALL + ["FORMAT-1", "TYPES-NAMES", "SYSTEM-G", "SYSTEM-T"], drivers=["garbage", "corpus", "lengths", "repo-tests", "vocab", "escapes"]),
-    "C02": dict(suites=PARSE_ALL, drivers=["corpus", "lengths", "repo-tests", "vocab", "escapes"]),
+    "C01": dict(suites=PARSE_ALL + ["FORMAT-1", "TYPES-NAMES", "SYSTEM-G", "SYSTEM-T"], drivers=["garbage", "corpus", "lengths", "repo-tests", "vocab", "escapes", "big"]),
+    "C02": dict(suites=PARSE_ALL, drivers=["corpus", "lengths", "repo-tests", "vocab", "escapes", "big"]),
     "C03": dict(suites=["FORMAT-1", "FORMAT-2", "PARSE-QUAL", "PARSE-QUALS2", "BUILDER-G", "BUILDER-SEQ"], drivers=["scalars", "builder-ops", "vocab"]),
     "C04": dict(suites=PARSE_ALL + BUILD_ALL + ["SHAPES", "SYSTEM-G", "SYSTEM-T", "QUAL"], drivers=["garbage", "builder-ops", "repo-tests"]),
-    "C05": dict(suites=PARSE_ALL + ["CHECKSUM"], drivers=["corpus", "garbage", "lengths", "escapes", "scalars"]),
+    "C05": dict(suites=PARSE_ALL + ["CHECKSUM"], drivers=["corpus", "garbage", "lengths", "escapes", "scalars", "big"]),
     "C06": dict(suites=PARSE_ALL + ["QUAL", "QUAL-SIM", "CHECKSUM", "BUILDER-G", "BUILDER-T", "BUILDER-SIM-G", "FORMAT-1", "TYPES-LOOKUP", "TYPES-COMB", "TYPES-NAMES", "TYPES-STR", "SHAPES", "SYSTEM-T"], drivers=["garbage", "corpus", "scalars", "lengths", "qual-ops", "checksum-ops", "builder-ops", "type-strings", "combined", "big", "vocab", "escapes"]),
     "C07": dict(suites=["PARSE-NS", "PARSE-SUB", "PARSE-PATH", "PARSE-SEP", "SPELL", "FAULT"], drivers=["garbage", "corpus", "lengths", "escapes"]),
     "C08": dict(suites=["TYPES-NAMES", "TYPES-LOOKUP", "PARSE-TYPED", "BUILDER-T", "TYPES-COMB"], drivers=["scalars", "corpus", "vocab"]),
-    "C09": dict(suites=BUILD_ALL + ["FORMAT-1", "FORMAT-2", "SYSTEM-G", "SYSTEM-T", "TYPES-NAMES", "TYPES-STR"], drivers=["builder-ops", "lengths", "repo-tests", "vocab"]),
+    "C09": dict(suites=BUILD_ALL + ["FORMAT-1", "FORMAT-2", "SYSTEM-G", "SYSTEM-T", "TYPES-NAMES", "TYPES-STR"], drivers=["builder-ops", "lengths", "repo-tests", "vocab", "big"]),
     "C10": dict(suites=PARSE_ALL + ["BUILDER-G", "BUILDER-T", "FORMAT-1", "TYPES-NAMES", "TYPES-STR", "CHECKSUM", "SYSTEM-G", "SYSTEM-T"], drivers=["scalars", "corpus", "lengths", "vocab"]),
     "C11": dict(suites=["QUAL", "QUAL-SIM"], drivers=["qual-ops"]),
     "C12": dict(suites=["CHECKSUM", "BUILDER-G", "QUAL", "PARSE-QUAL", "SPELL"], drivers=["checksum-ops", "corpus", "escapes"]),
